@@ -1125,3 +1125,20 @@ Proof.
   induction fetches as [|[url data] rest IH]; intros links reps; cbn [update_all]; [eauto|].
   destruct (update_total_any int_of decompress decode_utf8 links url data) as (l & r & ->). apply IH.
 Qed.
+
+(* ================================================================== driver.make: the subjects of the two writers *)
+(* whenever HTML is written the inventory is written too, for exactly the objects whose pages are written;
+   without HTML the inventory (if asked for) covers the root objects; otherwise nothing is written *)
+Lemma make_subjects_agree {S} (o : make_options S) (roots : list S) :
+  (o_makehtml o = true ->
+     exists subjects, make_subjects o roots = (Some subjects, Some subjects) /\
+       subjects = match o_htmlsubjects o with
+                  | _ :: _ => o_htmlsubjects o
+                  | [] => if o_summarypages o then [] else roots
+                  end) /\
+  (o_makehtml o = false -> o_makeintersphinx o = true -> make_subjects o roots = (None, Some roots)) /\
+  (o_makehtml o = false -> o_makeintersphinx o = false -> make_subjects o roots = (None, None)).
+Proof.
+  unfold make_subjects. destruct (o_makehtml o), (o_makeintersphinx o);
+    (split; [intros H; try discriminate; eexists; split; reflexivity|split; intros H1 H2; try discriminate; reflexivity]).
+Qed.
